@@ -170,6 +170,8 @@ def alphabet(bins, backed, allow_remesh=True):
     if backed:
         ops.append(dict(op="revert"))
     ops += [dict(op="load", data=LOAD_DATA), dict(op="loadfn", c=Fr(2)), dict(op="moments")]
+    ops += [dict(op="recon"), dict(op="recoff"), dict(op="recreset"), dict(op="recremove")]
+    ops += [dict(op="settime", t=Fr(0)), dict(op="settime", t=Fr(3, 2)), dict(op="settime", t=Fr(100))]
     return ops
 
 
@@ -183,12 +185,22 @@ def op_json(op, bins):
         o["data"] = [rat(v) for v in o["data"]]
     elif o["op"] == "loadfn":
         o["c"] = rat(o["c"])
+    elif o["op"] == "settime":
+        o["t"] = rat(o["t"])
     return o
 
 
 def snapshot(p):
-    return dict(bins=int(p.bins), min=float(p.min), max=float(p.max), bounds=[float(v) for v in p.PSDbounds],
-                size=[float(v) for v in p.PSDsize], psd=[float(v) for v in p.PSD], psdlen=len(p.PSD))
+    d = dict(bins=int(p.bins), min=float(p.min), max=float(p.max), bounds=[float(v) for v in p.PSDbounds],
+             size=[float(v) for v in p.PSDsize], psd=[float(v) for v in p.PSD], psdlen=len(p.PSD))
+    if p._recordedTime is None:
+        d["hasRec"] = False
+        d["rec"] = []
+    else:
+        d["hasRec"] = True
+        d["rec"] = [{"t": float(t), "bounds": [float(v) for v in b], "psd": [float(v) for v in q]}
+                    for t, b, q in zip(p._recordedTime, p._recordedBins, p._recordedPSD)]
+    return d
 
 
 def apply_op(p, op):
@@ -203,7 +215,16 @@ def apply_op(p, op):
         ch, ni = p.adjustSizeClassesEuler(op["chk"])
         extra["ret"] = [bool(ch), None if ni is None else int(ni)]
     elif k == "update":
-        p.UpdatePBMEuler(1.0, np.array([float(v) for v in pattern(p.bins, op["p"])]))
+        p._verif_clock = getattr(p, "_verif_clock", 0) + 1        # logical clock of the drivers: the k-th update happens at time k
+        p.UpdatePBMEuler(float(p._verif_clock), np.array([float(v) for v in pattern(p.bins, op["p"])]))
+    elif k == "recon": p.enableRecording()
+    elif k == "recoff": p.disableRecording()
+    elif k == "recreset": p.resetRecordedData()
+    elif k == "recremove": p.removeRecordedData()
+    elif k == "settime":
+        import io, contextlib
+        with contextlib.redirect_stdout(io.StringIO()):
+            p.setPSDtoRecordedTime(float(op["t"]))
     elif k == "backup": p.createBackup()
     elif k == "revert": p.revert()
     elif k == "load": p.LoadDistribution(np.array([float(v) for v in op["data"]]))
@@ -269,6 +290,7 @@ def gen_histories(rng, tier):
                     nu = last["psd"][:len(prev["psd"])] != prev["psd"] or last["bins"] < prev["bins"]
                 elif k in ("update", "load", "loadfn", "reset") or (k == "change" and op["reset"]): nu = False
                 elif k == "revert": nu = prev_ugly
+                elif k == "settime": nu = True
                 rec(cfg, seq, None, nb, nu, npv, depth - 1)
 
     for cfg in (CONFIGS if tier == "thorough" else CONFIGS[:3]):
@@ -288,5 +310,6 @@ def gen_histories(rng, tier):
             elif k == "adjust": ugly = True; backed = False
             elif k in ("update", "load", "loadfn", "reset") or (k == "change" and op["reset"]): ugly = False
             elif k == "revert": ugly = prev_ugly
+            elif k == "settime": ugly = True
         hist.append((cfg, seq))
     return hist
